@@ -422,9 +422,14 @@ func cmdRun(args []string) int {
 	if agg.Assumptions == nil {
 		ev["assumptions"] = []string{}
 	}
-	os.MkdirAll(filepath.Join(verifDir, "evidence"), 0o755)
+	evDir := filepath.Join(verifDir, "evidence")
+	if srcDir() != "/repo" {
+		// runs against an alternate tree (seeded changes) must not overwrite the evidence of /repo
+		evDir = filepath.Join(mcDir, ".work", "alt-evidence")
+	}
+	os.MkdirAll(evDir, 0o755)
 	eb, _ := json.MarshalIndent(ev, "", " ")
-	if err := os.WriteFile(filepath.Join(verifDir, "evidence", id+".json"), eb, 0o644); err != nil {
+	if err := os.WriteFile(filepath.Join(evDir, id+".json"), eb, 0o644); err != nil {
 		fmt.Fprintf(os.Stderr, "BROKEN cannot write evidence: %v\n", err)
 		return 2
 	}
